@@ -272,7 +272,7 @@ def run(tier, seed):
     core.validate_and_report(chk, 'Props', OBS, ACTIONS, batch, trace_cfg(), ['NeverRevealed', 'SignalOnlyIfDeclared'], 'c17', {},
                              'random', nproc=8, extra=extra)
     chk.sample({'recorded': [a for a, s in batch[0]][:6]})
-    tr = [list(x) for x in batch[0]]
+    tr = [list(x) for x in rerecord({}, [('Assign', (1, 2)), ('Get', ('org.v.I1', 'level')), ('GetAll', ('org.v.I2',))])]
     for j, (a, st) in enumerate(tr):
         if st['reply'].get('k') == 'value':
             tr[j] = (a, dict(st, reply=dict(st['reply'], type='x')))
